@@ -35,8 +35,9 @@ Documented rules implemented here (pharmpy.modeling docstrings / code comments):
   count as doses; 0 on dose records; never negative;
 * CMT / ADMID: see get_cmt / get_admid docstrings ("admids of events in between doses is
   set to the last used admid");
-* baseline: the first record of the individual; a covariate is time varying when it takes
-  more than one value within some individual.
+* baseline: the first record of the individual "even if that has a missing value"; a
+  covariate is time varying when it takes more than one value within some individual
+  (whether a missing value is a value is not documented: left open).
 """
 
 from __future__ import annotations
@@ -430,14 +431,32 @@ def baselines(records, meta, columns=None):
     return [(_id, {c: records[rows[0]][c] for c in cols}) for _id, rows in individuals(records, meta)]
 
 
+def _missing(v):
+    return isinstance(v, float) and v != v
+
+
 def time_varying_covariates(records, meta):
-    out = []
+    """-> (certain, open): names of covariates that take more than one (non-missing) value
+    within some individual, and names for which this depends on whether a missing value
+    (NaN) counts as a value of its own (one non-missing value plus missing values within an
+    individual): the docstring of list_time_varying_covariates does not say."""
+    certain = []
+    undecided = []
     for c in meta.get('covariates', []):
+        status = 0
         for _id, rows in individuals(records, meta):
-            if len({records[i][c] for i in rows}) > 1:
-                out.append(c)
+            vals = [records[i][c] for i in rows]
+            present = {v for v in vals if not _missing(v)}
+            if len(present) > 1:
+                status = 2
                 break
-    return out
+            if len(present) == 1 and any(_missing(v) for v in vals):
+                status = max(status, 1)
+        if status == 2:
+            certain.append(c)
+        elif status == 1:
+            undecided.append(c)
+    return certain, undecided
 
 
 def observation_counts(records, meta):
